@@ -238,6 +238,11 @@ class Producer(object):
         except Exception:
             return fail()
 
+        if self.stopping:
+            # Nothing is dispatched once stop() has begun, and nothing would
+            # ever fire this request's Deferred
+            return fail(CancelledError(request_sent=False))
+
         d = Deferred(self._cancel_send_messages)
         self._batch_reqs.append(SendRequest(topic, key, msgs, d))
         self._waitingMsgCount += msg_cnt
